@@ -15,7 +15,10 @@ CLASSES = {
   'ChannelState': dict(file='scales/constants.py', path='ChannelState'),
   'Int': dict(file='scales/constants.py', path='Int'),
   'MessageProperties': dict(file='scales/constants.py', path='MessageProperties'),
-  'AsyncResult': dict(extern=True, path=None, fields={'g_sets': 'int', 'g_value': 'any', 'g_failed': 'bool', 'g_ready': 'bool'}, ghost=['g_sets', 'g_value', 'g_failed', 'g_ready'], bases=[]),
+  # gevent's AsyncResult as the repository uses it: observable value / exception, readiness (ghost),
+  # and a ghost count of set()/set_exception() calls
+  'AsyncResult': dict(extern=True, path=None, fields={'value': 'any', 'exception': 'any', 'g_sets': 'int', 'g_value': 'any', 'g_failed': 'bool', 'g_ready': 'bool'},
+                      ghost=['g_sets', 'g_value', 'g_failed', 'g_ready'], bases=[]),
   # any ClientMessageSink used as a member channel; its state is an opaque observable
   'Channel': dict(extern=True, path=None, fields={'state': 'int', 'on_faulted': 'Observable', 'g_opens': 'int', 'g_closes': 'int'}, ghost=['g_opens', 'g_closes'], bases=['ClientMessageSink']),
 }
